@@ -1351,3 +1351,278 @@ func verifLemmaZeroVector(bits BitVec) {}
 //@   requires scope.Stack != nil && stackInv(scope.Stack) && scope.Stack.size < 1024 && scope.Memory != nil
 //@   modifies scope.Stack.size, scope.Stack.inner.top, scope.Stack.inner.data[scope.Stack.bottom + scope.Stack.size : scope.Stack.bottom + scope.Stack.size + 1]
 //@   ensures err == nil && stackInv(scope.Stack) && scope.Stack.size == old(scope.Stack.size) + 1 && sval(scope.Stack, 0) == len(scope.Memory.store)
+
+// ================================================================ C27: SWAPn, DUPn and constant pushes
+// The instruction wrappers around the stack primitives: SWAPn exchanges the top with the item n
+// below it and leaves the size and everything in between alone; DUPn pushes a copy of the n-th
+// item; the environment pushes add exactly one item holding the named quantity.
+
+//@ func opSwap1(pc *uint64, evm *EVM, scope *ScopeContext) (ret []byte, err error)
+//@   serves C27
+//@   requires scope.Stack != nil && stackInv(scope.Stack) && scope.Stack.size >= 2
+//@   modifies scope.Stack.inner.data[scope.Stack.bottom + scope.Stack.size - 2 : scope.Stack.bottom + scope.Stack.size]
+//@   ensures err == nil && stackInv(scope.Stack) && scope.Stack.size == old(scope.Stack.size)
+//@   ensures sval(scope.Stack, 0) == old(sval(scope.Stack, 1)) && sval(scope.Stack, 1) == old(sval(scope.Stack, 0))
+//@   ensures forall k int :: 0 < k && k < 1 ==> sval(scope.Stack, k) == old(sval(scope.Stack, k))
+
+//@ func opSwap2(pc *uint64, evm *EVM, scope *ScopeContext) (ret []byte, err error)
+//@   serves C27
+//@   requires scope.Stack != nil && stackInv(scope.Stack) && scope.Stack.size >= 3
+//@   modifies scope.Stack.inner.data[scope.Stack.bottom + scope.Stack.size - 3 : scope.Stack.bottom + scope.Stack.size]
+//@   ensures err == nil && stackInv(scope.Stack) && scope.Stack.size == old(scope.Stack.size)
+//@   ensures sval(scope.Stack, 0) == old(sval(scope.Stack, 2)) && sval(scope.Stack, 2) == old(sval(scope.Stack, 0))
+//@   ensures forall k int :: 0 < k && k < 2 ==> sval(scope.Stack, k) == old(sval(scope.Stack, k))
+
+//@ func opSwap3(pc *uint64, evm *EVM, scope *ScopeContext) (ret []byte, err error)
+//@   serves C27
+//@   requires scope.Stack != nil && stackInv(scope.Stack) && scope.Stack.size >= 4
+//@   modifies scope.Stack.inner.data[scope.Stack.bottom + scope.Stack.size - 4 : scope.Stack.bottom + scope.Stack.size]
+//@   ensures err == nil && stackInv(scope.Stack) && scope.Stack.size == old(scope.Stack.size)
+//@   ensures sval(scope.Stack, 0) == old(sval(scope.Stack, 3)) && sval(scope.Stack, 3) == old(sval(scope.Stack, 0))
+//@   ensures forall k int :: 0 < k && k < 3 ==> sval(scope.Stack, k) == old(sval(scope.Stack, k))
+
+//@ func opSwap4(pc *uint64, evm *EVM, scope *ScopeContext) (ret []byte, err error)
+//@   serves C27
+//@   requires scope.Stack != nil && stackInv(scope.Stack) && scope.Stack.size >= 5
+//@   modifies scope.Stack.inner.data[scope.Stack.bottom + scope.Stack.size - 5 : scope.Stack.bottom + scope.Stack.size]
+//@   ensures err == nil && stackInv(scope.Stack) && scope.Stack.size == old(scope.Stack.size)
+//@   ensures sval(scope.Stack, 0) == old(sval(scope.Stack, 4)) && sval(scope.Stack, 4) == old(sval(scope.Stack, 0))
+//@   ensures forall k int :: 0 < k && k < 4 ==> sval(scope.Stack, k) == old(sval(scope.Stack, k))
+
+//@ func opSwap5(pc *uint64, evm *EVM, scope *ScopeContext) (ret []byte, err error)
+//@   serves C27
+//@   requires scope.Stack != nil && stackInv(scope.Stack) && scope.Stack.size >= 6
+//@   modifies scope.Stack.inner.data[scope.Stack.bottom + scope.Stack.size - 6 : scope.Stack.bottom + scope.Stack.size]
+//@   ensures err == nil && stackInv(scope.Stack) && scope.Stack.size == old(scope.Stack.size)
+//@   ensures sval(scope.Stack, 0) == old(sval(scope.Stack, 5)) && sval(scope.Stack, 5) == old(sval(scope.Stack, 0))
+//@   ensures forall k int :: 0 < k && k < 5 ==> sval(scope.Stack, k) == old(sval(scope.Stack, k))
+
+//@ func opSwap6(pc *uint64, evm *EVM, scope *ScopeContext) (ret []byte, err error)
+//@   serves C27
+//@   requires scope.Stack != nil && stackInv(scope.Stack) && scope.Stack.size >= 7
+//@   modifies scope.Stack.inner.data[scope.Stack.bottom + scope.Stack.size - 7 : scope.Stack.bottom + scope.Stack.size]
+//@   ensures err == nil && stackInv(scope.Stack) && scope.Stack.size == old(scope.Stack.size)
+//@   ensures sval(scope.Stack, 0) == old(sval(scope.Stack, 6)) && sval(scope.Stack, 6) == old(sval(scope.Stack, 0))
+//@   ensures forall k int :: 0 < k && k < 6 ==> sval(scope.Stack, k) == old(sval(scope.Stack, k))
+
+//@ func opSwap7(pc *uint64, evm *EVM, scope *ScopeContext) (ret []byte, err error)
+//@   serves C27
+//@   requires scope.Stack != nil && stackInv(scope.Stack) && scope.Stack.size >= 8
+//@   modifies scope.Stack.inner.data[scope.Stack.bottom + scope.Stack.size - 8 : scope.Stack.bottom + scope.Stack.size]
+//@   ensures err == nil && stackInv(scope.Stack) && scope.Stack.size == old(scope.Stack.size)
+//@   ensures sval(scope.Stack, 0) == old(sval(scope.Stack, 7)) && sval(scope.Stack, 7) == old(sval(scope.Stack, 0))
+//@   ensures forall k int :: 0 < k && k < 7 ==> sval(scope.Stack, k) == old(sval(scope.Stack, k))
+
+//@ func opSwap8(pc *uint64, evm *EVM, scope *ScopeContext) (ret []byte, err error)
+//@   serves C27
+//@   requires scope.Stack != nil && stackInv(scope.Stack) && scope.Stack.size >= 9
+//@   modifies scope.Stack.inner.data[scope.Stack.bottom + scope.Stack.size - 9 : scope.Stack.bottom + scope.Stack.size]
+//@   ensures err == nil && stackInv(scope.Stack) && scope.Stack.size == old(scope.Stack.size)
+//@   ensures sval(scope.Stack, 0) == old(sval(scope.Stack, 8)) && sval(scope.Stack, 8) == old(sval(scope.Stack, 0))
+//@   ensures forall k int :: 0 < k && k < 8 ==> sval(scope.Stack, k) == old(sval(scope.Stack, k))
+
+//@ func opSwap9(pc *uint64, evm *EVM, scope *ScopeContext) (ret []byte, err error)
+//@   serves C27
+//@   requires scope.Stack != nil && stackInv(scope.Stack) && scope.Stack.size >= 10
+//@   modifies scope.Stack.inner.data[scope.Stack.bottom + scope.Stack.size - 10 : scope.Stack.bottom + scope.Stack.size]
+//@   ensures err == nil && stackInv(scope.Stack) && scope.Stack.size == old(scope.Stack.size)
+//@   ensures sval(scope.Stack, 0) == old(sval(scope.Stack, 9)) && sval(scope.Stack, 9) == old(sval(scope.Stack, 0))
+//@   ensures forall k int :: 0 < k && k < 9 ==> sval(scope.Stack, k) == old(sval(scope.Stack, k))
+
+//@ func opSwap10(pc *uint64, evm *EVM, scope *ScopeContext) (ret []byte, err error)
+//@   serves C27
+//@   requires scope.Stack != nil && stackInv(scope.Stack) && scope.Stack.size >= 11
+//@   modifies scope.Stack.inner.data[scope.Stack.bottom + scope.Stack.size - 11 : scope.Stack.bottom + scope.Stack.size]
+//@   ensures err == nil && stackInv(scope.Stack) && scope.Stack.size == old(scope.Stack.size)
+//@   ensures sval(scope.Stack, 0) == old(sval(scope.Stack, 10)) && sval(scope.Stack, 10) == old(sval(scope.Stack, 0))
+//@   ensures forall k int :: 0 < k && k < 10 ==> sval(scope.Stack, k) == old(sval(scope.Stack, k))
+
+//@ func opSwap11(pc *uint64, evm *EVM, scope *ScopeContext) (ret []byte, err error)
+//@   serves C27
+//@   requires scope.Stack != nil && stackInv(scope.Stack) && scope.Stack.size >= 12
+//@   modifies scope.Stack.inner.data[scope.Stack.bottom + scope.Stack.size - 12 : scope.Stack.bottom + scope.Stack.size]
+//@   ensures err == nil && stackInv(scope.Stack) && scope.Stack.size == old(scope.Stack.size)
+//@   ensures sval(scope.Stack, 0) == old(sval(scope.Stack, 11)) && sval(scope.Stack, 11) == old(sval(scope.Stack, 0))
+//@   ensures forall k int :: 0 < k && k < 11 ==> sval(scope.Stack, k) == old(sval(scope.Stack, k))
+
+//@ func opSwap12(pc *uint64, evm *EVM, scope *ScopeContext) (ret []byte, err error)
+//@   serves C27
+//@   requires scope.Stack != nil && stackInv(scope.Stack) && scope.Stack.size >= 13
+//@   modifies scope.Stack.inner.data[scope.Stack.bottom + scope.Stack.size - 13 : scope.Stack.bottom + scope.Stack.size]
+//@   ensures err == nil && stackInv(scope.Stack) && scope.Stack.size == old(scope.Stack.size)
+//@   ensures sval(scope.Stack, 0) == old(sval(scope.Stack, 12)) && sval(scope.Stack, 12) == old(sval(scope.Stack, 0))
+//@   ensures forall k int :: 0 < k && k < 12 ==> sval(scope.Stack, k) == old(sval(scope.Stack, k))
+
+//@ func opSwap13(pc *uint64, evm *EVM, scope *ScopeContext) (ret []byte, err error)
+//@   serves C27
+//@   requires scope.Stack != nil && stackInv(scope.Stack) && scope.Stack.size >= 14
+//@   modifies scope.Stack.inner.data[scope.Stack.bottom + scope.Stack.size - 14 : scope.Stack.bottom + scope.Stack.size]
+//@   ensures err == nil && stackInv(scope.Stack) && scope.Stack.size == old(scope.Stack.size)
+//@   ensures sval(scope.Stack, 0) == old(sval(scope.Stack, 13)) && sval(scope.Stack, 13) == old(sval(scope.Stack, 0))
+//@   ensures forall k int :: 0 < k && k < 13 ==> sval(scope.Stack, k) == old(sval(scope.Stack, k))
+
+//@ func opSwap14(pc *uint64, evm *EVM, scope *ScopeContext) (ret []byte, err error)
+//@   serves C27
+//@   requires scope.Stack != nil && stackInv(scope.Stack) && scope.Stack.size >= 15
+//@   modifies scope.Stack.inner.data[scope.Stack.bottom + scope.Stack.size - 15 : scope.Stack.bottom + scope.Stack.size]
+//@   ensures err == nil && stackInv(scope.Stack) && scope.Stack.size == old(scope.Stack.size)
+//@   ensures sval(scope.Stack, 0) == old(sval(scope.Stack, 14)) && sval(scope.Stack, 14) == old(sval(scope.Stack, 0))
+//@   ensures forall k int :: 0 < k && k < 14 ==> sval(scope.Stack, k) == old(sval(scope.Stack, k))
+
+//@ func opSwap15(pc *uint64, evm *EVM, scope *ScopeContext) (ret []byte, err error)
+//@   serves C27
+//@   requires scope.Stack != nil && stackInv(scope.Stack) && scope.Stack.size >= 16
+//@   modifies scope.Stack.inner.data[scope.Stack.bottom + scope.Stack.size - 16 : scope.Stack.bottom + scope.Stack.size]
+//@   ensures err == nil && stackInv(scope.Stack) && scope.Stack.size == old(scope.Stack.size)
+//@   ensures sval(scope.Stack, 0) == old(sval(scope.Stack, 15)) && sval(scope.Stack, 15) == old(sval(scope.Stack, 0))
+//@   ensures forall k int :: 0 < k && k < 15 ==> sval(scope.Stack, k) == old(sval(scope.Stack, k))
+
+//@ func opSwap16(pc *uint64, evm *EVM, scope *ScopeContext) (ret []byte, err error)
+//@   serves C27
+//@   requires scope.Stack != nil && stackInv(scope.Stack) && scope.Stack.size >= 17
+//@   modifies scope.Stack.inner.data[scope.Stack.bottom + scope.Stack.size - 17 : scope.Stack.bottom + scope.Stack.size]
+//@   ensures err == nil && stackInv(scope.Stack) && scope.Stack.size == old(scope.Stack.size)
+//@   ensures sval(scope.Stack, 0) == old(sval(scope.Stack, 16)) && sval(scope.Stack, 16) == old(sval(scope.Stack, 0))
+//@   ensures forall k int :: 0 < k && k < 16 ==> sval(scope.Stack, k) == old(sval(scope.Stack, k))
+
+//@ func makeDup$1(pc *uint64, evm *EVM, scope *ScopeContext) (ret []byte, err error)
+//@   serves C27
+//@   requires scope.Stack != nil && stackInv(scope.Stack) && 1 <= size && size <= scope.Stack.size && scope.Stack.size < 1024
+//@   modifies scope.Stack.size, scope.Stack.inner.top, scope.Stack.inner.data[scope.Stack.bottom + scope.Stack.size : scope.Stack.bottom + scope.Stack.size + 1]
+//@   ensures err == nil && stackInv(scope.Stack) && scope.Stack.size == old(scope.Stack.size) + 1 && sval(scope.Stack, 0) == old(sval(scope.Stack, size - 1))
+
+//@ func opPush0(pc *uint64, evm *EVM, scope *ScopeContext) (ret []byte, err error)
+//@   serves C27
+//@   requires scope.Stack != nil && stackInv(scope.Stack) && scope.Stack.size < 1024
+//@   modifies scope.Stack.size, scope.Stack.inner.top, scope.Stack.inner.data[scope.Stack.bottom + scope.Stack.size : scope.Stack.bottom + scope.Stack.size + 1]
+//@   ensures err == nil && stackInv(scope.Stack) && scope.Stack.size == old(scope.Stack.size) + 1 && sval(scope.Stack, 0) == 0
+
+//@ func opGas(pc *uint64, evm *EVM, scope *ScopeContext) (ret []byte, err error)
+//@   serves C27
+//@   requires scope.Stack != nil && stackInv(scope.Stack) && scope.Stack.size < 1024 && scope.Contract != nil
+//@   modifies scope.Stack.size, scope.Stack.inner.top, scope.Stack.inner.data[scope.Stack.bottom + scope.Stack.size : scope.Stack.bottom + scope.Stack.size + 1]
+//@   ensures err == nil && stackInv(scope.Stack) && scope.Stack.size == old(scope.Stack.size) + 1 && sval(scope.Stack, 0) == scope.Contract.Gas.ExecutionGas
+
+//@ func opCallDataSize(pc *uint64, evm *EVM, scope *ScopeContext) (ret []byte, err error)
+//@   serves C27
+//@   requires scope.Stack != nil && stackInv(scope.Stack) && scope.Stack.size < 1024 && scope.Contract != nil
+//@   modifies scope.Stack.size, scope.Stack.inner.top, scope.Stack.inner.data[scope.Stack.bottom + scope.Stack.size : scope.Stack.bottom + scope.Stack.size + 1]
+//@   ensures err == nil && stackInv(scope.Stack) && scope.Stack.size == old(scope.Stack.size) + 1 && sval(scope.Stack, 0) == len(scope.Contract.Input)
+
+//@ func opCodeSize(pc *uint64, evm *EVM, scope *ScopeContext) (ret []byte, err error)
+//@   serves C27
+//@   requires scope.Stack != nil && stackInv(scope.Stack) && scope.Stack.size < 1024 && scope.Contract != nil
+//@   modifies scope.Stack.size, scope.Stack.inner.top, scope.Stack.inner.data[scope.Stack.bottom + scope.Stack.size : scope.Stack.bottom + scope.Stack.size + 1]
+//@   ensures err == nil && stackInv(scope.Stack) && scope.Stack.size == old(scope.Stack.size) + 1 && sval(scope.Stack, 0) == len(scope.Contract.Code)
+
+//@ func opReturnDataSize(pc *uint64, evm *EVM, scope *ScopeContext) (ret []byte, err error)
+//@   serves C27
+//@   requires scope.Stack != nil && stackInv(scope.Stack) && scope.Stack.size < 1024
+//@   modifies scope.Stack.size, scope.Stack.inner.top, scope.Stack.inner.data[scope.Stack.bottom + scope.Stack.size : scope.Stack.bottom + scope.Stack.size + 1]
+//@   ensures err == nil && stackInv(scope.Stack) && scope.Stack.size == old(scope.Stack.size) + 1 && sval(scope.Stack, 0) == len(evm.returnData)
+
+//@ func opCallValue(pc *uint64, evm *EVM, scope *ScopeContext) (ret []byte, err error)
+//@   serves C27
+//@   requires scope.Stack != nil && stackInv(scope.Stack) && scope.Stack.size < 1024 && scope.Contract != nil && scope.Contract.value != nil
+//@   modifies scope.Stack.size, scope.Stack.inner.top, scope.Stack.inner.data[scope.Stack.bottom + scope.Stack.size : scope.Stack.bottom + scope.Stack.size + 1]
+//@   ensures err == nil && stackInv(scope.Stack) && scope.Stack.size == old(scope.Stack.size) + 1 && sval(scope.Stack, 0) == old(u256val(scope.Contract.value))
+
+//@ func opStop(pc *uint64, evm *EVM, scope *ScopeContext) (ret []byte, err error)
+//@   serves C27
+//@   ensures err == errStopToken && len(ret) == 0
+
+// ================================================================ C27: stack effect of the remaining arithmetic instructions
+// Bitwise, modular, signed and shift instructions whose 256-bit result the generator does not
+// model (holiman/uint256 methods without an arithmetic model are havocked on their operands):
+// what is proved is the stack effect - no error, the frame's window stays well formed, exactly
+// the stated number of items is consumed, and only the operand slots are written.
+
+//@ func opAnd(pc *uint64, evm *EVM, scope *ScopeContext) (ret []byte, err error)
+//@   serves C27
+//@   requires scope.Stack != nil && stackInv(scope.Stack) && scope.Stack.size >= 2
+//@   modifies scope.Stack.size, scope.Stack.inner.top, scope.Stack.inner.data[scope.Stack.bottom + scope.Stack.size - 2 : scope.Stack.bottom + scope.Stack.size]
+//@   ensures err == nil && stackInv(scope.Stack) && scope.Stack.size == old(scope.Stack.size) - 1
+
+//@ func opOr(pc *uint64, evm *EVM, scope *ScopeContext) (ret []byte, err error)
+//@   serves C27
+//@   requires scope.Stack != nil && stackInv(scope.Stack) && scope.Stack.size >= 2
+//@   modifies scope.Stack.size, scope.Stack.inner.top, scope.Stack.inner.data[scope.Stack.bottom + scope.Stack.size - 2 : scope.Stack.bottom + scope.Stack.size]
+//@   ensures err == nil && stackInv(scope.Stack) && scope.Stack.size == old(scope.Stack.size) - 1
+
+//@ func opXor(pc *uint64, evm *EVM, scope *ScopeContext) (ret []byte, err error)
+//@   serves C27
+//@   requires scope.Stack != nil && stackInv(scope.Stack) && scope.Stack.size >= 2
+//@   modifies scope.Stack.size, scope.Stack.inner.top, scope.Stack.inner.data[scope.Stack.bottom + scope.Stack.size - 2 : scope.Stack.bottom + scope.Stack.size]
+//@   ensures err == nil && stackInv(scope.Stack) && scope.Stack.size == old(scope.Stack.size) - 1
+
+//@ func opByte(pc *uint64, evm *EVM, scope *ScopeContext) (ret []byte, err error)
+//@   serves C27
+//@   requires scope.Stack != nil && stackInv(scope.Stack) && scope.Stack.size >= 2
+//@   modifies scope.Stack.size, scope.Stack.inner.top, scope.Stack.inner.data[scope.Stack.bottom + scope.Stack.size - 2 : scope.Stack.bottom + scope.Stack.size]
+//@   ensures err == nil && stackInv(scope.Stack) && scope.Stack.size == old(scope.Stack.size) - 1
+
+//@ func opSHL(pc *uint64, evm *EVM, scope *ScopeContext) (ret []byte, err error)
+//@   serves C27
+//@   requires scope.Stack != nil && stackInv(scope.Stack) && scope.Stack.size >= 2
+//@   modifies scope.Stack.size, scope.Stack.inner.top, scope.Stack.inner.data[scope.Stack.bottom + scope.Stack.size - 2 : scope.Stack.bottom + scope.Stack.size]
+//@   ensures err == nil && stackInv(scope.Stack) && scope.Stack.size == old(scope.Stack.size) - 1
+
+//@ func opSHR(pc *uint64, evm *EVM, scope *ScopeContext) (ret []byte, err error)
+//@   serves C27
+//@   requires scope.Stack != nil && stackInv(scope.Stack) && scope.Stack.size >= 2
+//@   modifies scope.Stack.size, scope.Stack.inner.top, scope.Stack.inner.data[scope.Stack.bottom + scope.Stack.size - 2 : scope.Stack.bottom + scope.Stack.size]
+//@   ensures err == nil && stackInv(scope.Stack) && scope.Stack.size == old(scope.Stack.size) - 1
+
+//@ func opSAR(pc *uint64, evm *EVM, scope *ScopeContext) (ret []byte, err error)
+//@   serves C27
+//@   requires scope.Stack != nil && stackInv(scope.Stack) && scope.Stack.size >= 2
+//@   modifies scope.Stack.size, scope.Stack.inner.top, scope.Stack.inner.data[scope.Stack.bottom + scope.Stack.size - 2 : scope.Stack.bottom + scope.Stack.size]
+//@   ensures err == nil && stackInv(scope.Stack) && scope.Stack.size == old(scope.Stack.size) - 1
+
+//@ func opSignExtend(pc *uint64, evm *EVM, scope *ScopeContext) (ret []byte, err error)
+//@   serves C27
+//@   requires scope.Stack != nil && stackInv(scope.Stack) && scope.Stack.size >= 2
+//@   modifies scope.Stack.size, scope.Stack.inner.top, scope.Stack.inner.data[scope.Stack.bottom + scope.Stack.size - 2 : scope.Stack.bottom + scope.Stack.size]
+//@   ensures err == nil && stackInv(scope.Stack) && scope.Stack.size == old(scope.Stack.size) - 1
+
+//@ func opSdiv(pc *uint64, evm *EVM, scope *ScopeContext) (ret []byte, err error)
+//@   serves C27
+//@   requires scope.Stack != nil && stackInv(scope.Stack) && scope.Stack.size >= 2
+//@   modifies scope.Stack.size, scope.Stack.inner.top, scope.Stack.inner.data[scope.Stack.bottom + scope.Stack.size - 2 : scope.Stack.bottom + scope.Stack.size]
+//@   ensures err == nil && stackInv(scope.Stack) && scope.Stack.size == old(scope.Stack.size) - 1
+
+//@ func opSmod(pc *uint64, evm *EVM, scope *ScopeContext) (ret []byte, err error)
+//@   serves C27
+//@   requires scope.Stack != nil && stackInv(scope.Stack) && scope.Stack.size >= 2
+//@   modifies scope.Stack.size, scope.Stack.inner.top, scope.Stack.inner.data[scope.Stack.bottom + scope.Stack.size - 2 : scope.Stack.bottom + scope.Stack.size]
+//@   ensures err == nil && stackInv(scope.Stack) && scope.Stack.size == old(scope.Stack.size) - 1
+
+//@ func opExp(pc *uint64, evm *EVM, scope *ScopeContext) (ret []byte, err error)
+//@   serves C27
+//@   requires scope.Stack != nil && stackInv(scope.Stack) && scope.Stack.size >= 2
+//@   modifies scope.Stack.size, scope.Stack.inner.top, scope.Stack.inner.data[scope.Stack.bottom + scope.Stack.size - 2 : scope.Stack.bottom + scope.Stack.size]
+//@   ensures err == nil && stackInv(scope.Stack) && scope.Stack.size == old(scope.Stack.size) - 1
+
+//@ func opAddmod(pc *uint64, evm *EVM, scope *ScopeContext) (ret []byte, err error)
+//@   serves C27
+//@   requires scope.Stack != nil && stackInv(scope.Stack) && scope.Stack.size >= 3
+//@   modifies scope.Stack.size, scope.Stack.inner.top, scope.Stack.inner.data[scope.Stack.bottom + scope.Stack.size - 3 : scope.Stack.bottom + scope.Stack.size]
+//@   ensures err == nil && stackInv(scope.Stack) && scope.Stack.size == old(scope.Stack.size) - 2
+
+//@ func opMulmod(pc *uint64, evm *EVM, scope *ScopeContext) (ret []byte, err error)
+//@   serves C27
+//@   requires scope.Stack != nil && stackInv(scope.Stack) && scope.Stack.size >= 3
+//@   modifies scope.Stack.size, scope.Stack.inner.top, scope.Stack.inner.data[scope.Stack.bottom + scope.Stack.size - 3 : scope.Stack.bottom + scope.Stack.size]
+//@   ensures err == nil && stackInv(scope.Stack) && scope.Stack.size == old(scope.Stack.size) - 2
+
+//@ func opNot(pc *uint64, evm *EVM, scope *ScopeContext) (ret []byte, err error)
+//@   serves C27
+//@   requires scope.Stack != nil && stackInv(scope.Stack) && scope.Stack.size >= 1
+//@   modifies scope.Stack.inner.data[scope.Stack.bottom + scope.Stack.size - 1 : scope.Stack.bottom + scope.Stack.size]
+//@   ensures err == nil && stackInv(scope.Stack) && scope.Stack.size == old(scope.Stack.size) - 0
+
+//@ func opCLZ(pc *uint64, evm *EVM, scope *ScopeContext) (ret []byte, err error)
+//@   serves C27
+//@   requires scope.Stack != nil && stackInv(scope.Stack) && scope.Stack.size >= 1
+//@   modifies scope.Stack.inner.data[scope.Stack.bottom + scope.Stack.size - 1 : scope.Stack.bottom + scope.Stack.size]
+//@   ensures err == nil && stackInv(scope.Stack) && scope.Stack.size == old(scope.Stack.size) - 0
